@@ -163,7 +163,7 @@ func (a *Analysis) decodeBufferUse(rep *Report, rule, key string, paths []*Path)
 }
 
 func (a *Analysis) CheckC07(rep *Report) {
-	rep.Explanation = "S1/S3: the Decode wire term of every type mirrors the Encode term atom by atom (same number of atoms, each read consuming exactly the bytes its opposite write produces: the fixed size of the number type, a constant N, or the value of the bound prefix). S2: on every path of every Decode – module callees inlined, and every reader primitive separately in its generic body and all instantiations – each use of the buffer is a consuming atom with an exact length (binary.Read of a fixed-size number, io.ReadFull into a slice of the expected length, (*Buffer).Read whose count is checked – see C11), an observer, or a nested Decode; nothing skips, peeks, rewinds or writes. By induction over the term the decoder consumes exactly the encoder's bytes and never inspects what follows."
+	rep.Explanation = "S1/S3: the Decode wire term of every type mirrors the Encode term atom by atom (same number of atoms, each read consuming exactly the bytes its opposite write produces: the fixed size of the number type, a constant N, or the value of the bound prefix). S2: on every path of every Decode – module callees inlined, and every reader primitive separately in its generic body and all instantiations – each use of the buffer is a consuming atom with an exact length (binary.Read of a fixed-size number, io.ReadFull into a slice of the expected length, (*Buffer).Read whose count is checked – see C11), an observer, or a nested Decode; nothing skips, peeks, rewinds or writes. By induction over the term the decoder consumes exactly the encoder's bytes and never inspects what follows. S3: in the library's generic bodies, with type parameters identified by position, the set of wire renderings of the reader primitives equals that of the writer primitives (a list reader that takes its element prefix in the count's type has no writer)."
 	rep.Trusted = trustedBase()
 	rep.Exhaustive = true
 	nev := 0
@@ -176,6 +176,17 @@ func (a *Analysis) CheckC07(rep *Report) {
 		}
 		nev += a.decodeBufferUse(rep, "S2-exact-consuming-atoms", ct.Name+".Decode", r.DecPaths)
 	}
+	// S3: at the level of the library, in the generic bodies (type parameters by position): what a reader primitive
+	// consumes is what some writer primitive produces, and the reverse – also for the instantiations no message uses
+	probs, ppos, nr := a.primitiveMirror()
+	for i, pr := range probs {
+		rep.Ob("S3-primitive-mirror", fmt.Sprintf("prim#%d:%s", i, pr[:min(60, len(pr))]), false, ppos[i], pr)
+	}
+	if len(probs) == 0 {
+		rep.Ob("S3-primitive-mirror", "all-primitives", true, "", "")
+	}
+	rep.Counts["primitive_renderings"] = nr
+	rep.Floor("primitive_renderings", nr, 16)
 	np := 0
 	for _, pp := range a.allPrimPaths() {
 		if !hasEvent(pp.paths, isRead) {
@@ -298,6 +309,22 @@ func (a *Analysis) tableMiss(p *Path) bool {
 	for _, c := range p.Conds {
 		if c.V.Op == "lookupok" && !c.Taken && !a.isRegistryMap(c.V.Args[0]) {
 			return true
+		}
+		// the same miss written as a nil test of the looked-up factory (a map yields nil for an absent key), or a
+		// defensive test that the factory's result is nil
+		if v := c.V; v.Op == "binop" && (v.Name == "==" || v.Name == "!=") && len(v.Args) == 2 && (v.Name == "==") == c.Taken {
+			for side := 0; side < 2; side++ {
+				if !v.Args[1-side].IsNilConst() {
+					continue
+				}
+				x := stripIface(stripCT(v.Args[side]))
+				if x.Op == "dyncall" && len(x.Args) > 0 {
+					x = stripCT(x.Args[0])
+				}
+				if x.Op == "lookup" && len(x.Args) == 2 && !a.isRegistryMap(x.Args[0]) && tableName(x.Args[0]) != "" {
+					return true
+				}
+			}
 		}
 	}
 	return false
@@ -759,7 +786,25 @@ func availabilityGuard(c Cond, n *Val) bool {
 		return false
 	}
 	narrowing := v.Contains(func(x *Val) bool {
-		return x.Op == "conv" && x.Name == "convert" && isIntegerType(x.Type) && len(x.Args) == 1 && x.Args[0].Type != nil && isIntegerType(x.Args[0].Type) && !wideningInt(x.Args[0].Type, x.Type)
+		if !(x.Op == "conv" && x.Name == "convert" && isIntegerType(x.Type) && len(x.Args) == 1 && x.Args[0].Type != nil && isIntegerType(x.Args[0].Type)) {
+			return false
+		}
+		if wideningInt(x.Args[0].Type, x.Type) {
+			return false
+		}
+		// a non-negative value converted to an unsigned type at least as wide keeps its value (uint64(buf.Len()))
+		fb, _ := intBits2(x.Args[0].Type)
+		tb, _ := intBits2(x.Type)
+		if fb == 0 {
+			fb = 64
+		}
+		if tb == 0 {
+			tb = 64
+		}
+		if tb >= fb && !isSignedType(x.Type) && nonNegative(x.Args[0], nil) {
+			return false
+		}
+		return true
 	})
 	if narrowing {
 		return false
